@@ -766,20 +766,21 @@ ra_malformed_write(RegisterTable *t, RegisterAddress addr,
          * memory. Perform that in temporary memory.
          */
 
-        rlen = size;
         if (addr > e->address) {
             /* This can only happen with the first entry the block touches. */
             bs = 0ull;
             rs = addr - e->address;
-            rlen -= rs - 1;
         } else {
             bs = e->address - addr;
             rs = 0ull;
         }
+        /* Atoms from the start of the overlap to the end of the entry... */
+        rlen = size - rs;
 
         if (end > last) {
-            /* This can only happen with the last entry the block touches. */
-            rlen -= bs + size - n;
+            /* ...minus those behind the end of the block. This can only happen
+             * with the last entry the block touches. */
+            rlen -= end - last;
         }
 
         /* Fetch the entire memory of where the old entry is stored */
